@@ -1,5 +1,5 @@
 """C14 — root never reads per-user directories; a user reads only its own and shared ones"""
-import os, re, shutil, subprocess
+import os, re, shutil, subprocess, tempfile
 import core, gen, e2e
 from core import hx, unhx
 
@@ -109,7 +109,7 @@ def run_ns(stage, uid):
              f'mount --bind {stage}/distro /usr/share/containers/systemd && '
              f'env -u QUADLET_UNIT_DIRS HOME={stage}/home XDG_CONFIG_HOME={stage}/home/.config XDG_RUNTIME_DIR={stage}/xdgrun '
              + (f'setpriv --reuid={uid} --regid={uid} --clear-groups ' if user else '')
-             + f'{core.BIN} ' + ('--user ' if user else '') + f'--dry-run --no-kmsg-log {out}')
+             + f'{stage}/quadlet-rs ' + ('--user ' if user else '') + f'--dry-run --no-kmsg-log {out}')
     p = subprocess.run(['unshare', '-m', 'sh', '-c', inner], capture_output=True, timeout=60)
     so = p.stdout.decode('utf-8', 'replace')
     return p.returncode, set(re.findall(r'^Environment=ORIGIN=(.*)$', so, re.M)), p.stderr.decode('utf-8', 'replace')
@@ -128,7 +128,11 @@ def oracle(ctx):
     res.notes.append('whole-binary runs in a private mount namespace (unshare -m + setpriv) were performed')
     cases = []
     for i in range(n):
-        stage = e2e.fresh_dir()
+        # staged below /tmp with open permissions and its own copy of the binary: the other uids must be able to traverse
+        # to the trees and to execute the generator wherever /verif lives; removed right after the run
+        stage = tempfile.mkdtemp(prefix='qverif-c14-', dir='/tmp')
+        os.chmod(stage, 0o755)
+        shutil.copy(core.BIN, os.path.join(stage, 'quadlet-rs'))
         tree = gen_tree(rnd)
         marks = {}
 
